@@ -754,7 +754,7 @@ func c20Prop(t *rapid.T) {
 
 func TestC20(t *testing.T) {
 	debug.SetMaxStack(256 << 20) // unbounded recursion dies fast instead of eating the machine
-	evid.Extra("rule", "C20: valid seed inputs (chart file maps with Chart.yaml / dependencies incl. import-values / values / schema / templates / subchart, --set lines, values files, repository indexes, manifest streams, stored Secret and ConfigMap release records next to good ones, provenance + keyring files, .helmignore, plugin.yaml, schema + values) receive structure-aware mutations (a node replaced by null / a wrong type / a 50-400 level nest / a 20 KB string / a hostile constant, null list entries, self references) and byte-level mutations (truncate, bit flip, hostile insert, doubling), then go through the public entry points: LoadFiles -> ProcessDependencies -> ToRenderValuesWithSchemaValidation -> Render -> SortManifests; lint.RunAll on a written directory; every strvals parser; ReadValues/LoadValues; LoadIndexFile + Get/Has/Merge/Sort/Write; SplitManifests/SortManifests; storage Get/List/History/Last/Deployed/Query/Delete; NewFromKeyring/Verify/DigestFile; ignore.Parse/Ignore; plugin.LoadDir/LoadAll/FindPlugins/PrepareCommand; ValidateAgainstSingleSchema. Oracle: no panic escapes (recover guard; root cause = first Helm frame), no result after 30 s is a hang, a dead process (stack exhaustion) is attributed to the case recorded before it started, and List/History over stored records still return every readable record. Non-trivial = the input passed the first parser of its target (deeper code ran); distinct by the inputs.")
+	evid.Extra("rule", "C20: valid seed inputs (chart file maps with Chart.yaml / dependencies incl. import-values (also with parent paths leading back into the imported table) / values / schema / templates / subchart, --set lines (seeds, hostile constants, and a grammar of several assignments whose paths disagree about scalar / list / table / list in a list), values files, repository indexes, manifest streams, stored Secret and ConfigMap release records next to good ones and as the only record of a release, provenance + keyring files, .helmignore, plugin.yaml, schema + values) receive structure-aware mutations (a node replaced by null / a wrong type / a 50-400 level nest / a 20 KB string / a hostile constant, null list entries, self references) and byte-level mutations (truncate, bit flip, hostile insert, doubling), then go through the public entry points: LoadFiles -> ProcessDependencies -> ToRenderValuesWithSchemaValidation -> Render -> SortManifests; lint.RunAll on a written directory; every strvals parser; ReadValues/LoadValues; LoadIndexFile + Get/Has/Merge/Sort/Write; SplitManifests/SortManifests; storage Get/List/History/Last/Deployed/Query/Delete; NewFromKeyring/Verify/DigestFile; ignore.Parse/Ignore; plugin.LoadDir/LoadAll/FindPlugins/PrepareCommand; ValidateAgainstSingleSchema. Oracle: no panic escapes (recover guard; root cause = first Helm frame), no result after 30 s is a hang, a dead process (stack exhaustion) is attributed to the case recorded before it started, and List/History over stored records still return every readable record. Non-trivial = the input passed the first parser of its target (deeper code ran); distinct by the inputs.")
 	evid.Extra("assumptions", []string{"inputs are bounded (<= ~100 KB); the 30 s watchdog is far above any observed run time", "OCI, SQL storage and plugin execution are not exercised"})
 	rapid.Check(t, c20Prop)
 }
